@@ -123,9 +123,25 @@ def _self_validate(ctx, prop):
                            f"got {rc}")
             else:
                 seeds_ok += 1
+    # behaviour-preserving refactorings (independent authors): this property's
+    # check must stay silent on every one of them
+    from selftest.refactors import run_one as run_refac
+    rdirs = sorted(d for d in glob.glob(os.path.join(here, "refactors", "*"))
+                   if os.path.isfile(os.path.join(d, "patch.diff")))
+    refac_ok = 0
+    with ProcessPoolExecutor(max_workers=min(16, os.cpu_count() or 4)) as ex:
+        for name, res, msg in ex.map(run_refac, [(d, [prop]) for d in rdirs]):
+            if res is None:
+                skipped += 1
+            elif res:
+                bad.append(f"refactoring {name}: exit {res[0][1]} "
+                           f"({'false alarm' if res[0][1] == 1 else 'analysis error'})")
+            else:
+                refac_ok += 1
     ctx.extra["self_validation"] = {
         "variants": len(todo), "firing_detected": fired, "silent_quiet": silent,
         "seeded_changes_reported": seeds_ok,
+        "refactorings_silent": refac_ok,
         "inapplicable": skipped, "failed": bad}
     if bad:
         raise AnalysisError("checker self-validation failed (the checker, not "
